@@ -437,4 +437,4 @@ def subspace_minimization(
         ),
     )
     # Eq (5.2) -> update free variables only
-    return xc + alpha_star * Z @ dHat
+    return np.clip(xc + alpha_star * Z @ dHat, lb, ub)
